@@ -3,7 +3,7 @@
     [Print Assumptions]. *)
 From Coq Require Import List ZArith.
 From Webp Require Import Base.Res Vp8l.Vp8lPixel Vp8l.Vp8lArr Vp8l.Vp8lPrefix Vp8l.Vp8lTransforms Vp8l.Vp8lSpec
-  Vp8l.Vp8lCanon Vp8l.Vp8lLut Vp8l.Vp8lLut2 Vp8l.Vp8lBitReader Vp8l.Vp8lBitReaderProof Vp8l.Vp8lEmit Vp8l.Vp8lEntropy Vp8l.Vp8lCodeLens Vp8l.Vp8lEmitDecode Vp8l.Vp8lWf Vp8l.Vp8lInPlace Vp8l.Vp8lKernels Vp8l.Vp8lTables Vp8l.Vp8lCacheDefer.
+  Vp8l.Vp8lCanon Vp8l.Vp8lLut Vp8l.Vp8lLut2 Vp8l.Vp8lPacked Vp8l.Vp8lBitReader Vp8l.Vp8lBitReaderProof Vp8l.Vp8lEmit Vp8l.Vp8lEntropy Vp8l.Vp8lCodeLens Vp8l.Vp8lEmitDecode Vp8l.Vp8lWf Vp8l.Vp8lInPlace Vp8l.Vp8lKernels Vp8l.Vp8lTables Vp8l.Vp8lCacheDefer.
 From WebpGen Require Consts Tables Vp8lRoles.
 Import ListNotations.
 Open Scope Z_scope.
@@ -147,6 +147,21 @@ Theorem C03_lut_decode_eq_canonical : forall root lens t tab w, 1 <= root <= 15 
   exists v n, walk t w = Some (v, n) /\ lut_read root tab w = (v, n).
 Proof. exact lut_decode_eq_canonical. Qed.
 Print Assumptions C03_lut_decode_eq_canonical.
+
+(** The packed-table fast path (buildPackedTable / accumulateHCode / readPackedSymbols,
+    selected by readHuffmanCodes when the maximal code lengths of the green, red, blue and
+    alpha codes sum to less than HuffmanPackedBits = 6): for all four length vectors with
+    maxima mg..ma, their root-8 lookup tables and every prefetched window, the 64-entry
+    packed table returns the same symbol(s) and consumes the same number of bits as walking
+    the four canonical code trees one after the other (a non-literal green symbol alone; a
+    literal green followed by red, blue, alpha assembled as a<<24 | r<<16 | g<<8 | b). *)
+Theorem C03_packed_read_eq_sequential :
+  forall lg lr lb la mg mr mb ma tg tr tb ta g r b a w,
+  table_of lg mg tg g -> table_of lr mr tr r -> table_of lb mb tb b -> table_of la ma ta a ->
+  mg + mr + mb + ma < 6 -> 0 <= w ->
+  seq_read tg tr tb ta w = Some (packed_read (packed_build g r b a) w).
+Proof. exact packed_read_eq_sequential. Qed.
+Print Assumptions C03_packed_read_eq_sequential.
 
 (** ... where walking the tree along a window is reading the symbol from the
     window's bit list (so [C03_prefix_roundtrip] applies to it). *)
